@@ -45,6 +45,30 @@
              the LEFT operand a.
    text.backward(text.position - result.position)  moves the cursor back to
              the index recorded in result.
+   start = text.position   an int local (one per rule: `s_start`); then
+             Token('', start[, category=TC.X]) and
+             text.backward(text.position - start) use the recorded index.
+   eol = text.forward(n)   a second token local next to the result (`s_tmp`);
+             eol == 'x' compares its text (Token.__eq__) with a one-character
+             str; result += eol as above.
+   result.endswith('x')    str.endswith on the token's own str value, which is
+             its text (Token.__new__ / __add__ / __iadd__ keep them equal).
+   text.peek(k) is None    true exactly past the end (peek returns None there).
+   lambda c: c.category <op> ...   a predicate on one character (`pred`); also a
+             nested `def p(c): return c.category <op> ...`.
+   text.num_forward_until(p)   the number of characters from the cursor up to
+             the first one satisfying p (or the end); the cursor does not move
+             (the method walks forward and back again; its assert compares the
+             walked text with itself).
+   text.forward_until(p)   consumes those characters; the result is built from
+             Token('', first.position) -- position of the FIRST remaining
+             character, or text.position at the end -- by +=, so its category
+             is None.
+   n = <int>; text.forward(<int>); text.backward(<int>); len(result)
+             `iexpr`: a literal, the int local, num_forward_until(p),
+             len(result).  forward(0) is OUnsup (shared Token.Empty), as is a
+             backward beyond what this call has consumed.
+   text.position as a truth value: non-zero.
    category codes are IntEnums: CC.x == CC.y iff same member; a TC member is
              compared with a CC member by integer value (only in
              `prev.category != CC.Comment`), using Tables.tc_value/cc_value.
@@ -75,6 +99,16 @@ Inductive chr := Peek (k : nat) | PeekPrev.
 Inductive dkey := K1 (a : cc) | K2 (a b : cc).
 Definition dict := list (dkey * tc).
 
+(* lambda c: c.category == CC.k / != CC.k / in (..) / not in (..) *)
+Inductive pred := PCatEq (k : cc) | PCatNe (k : cc) | PCatIn (ks : list cc) | PCatNotIn (ks : list cc).
+
+(* int-valued expressions *)
+Inductive iexpr :=
+| INum (n : nat)             (* a literal *)
+| IVar                       (* the int local *)
+| INumUntil (p : pred)       (* text.num_forward_until(p) *)
+| ILenRes.                   (* len(result) *)
+
 Inductive expr :=
 | ETruthy (c : chr)                  (* text.peek(k)              as a truth value *)
 | ECatEq (c : chr) (k : cc)          (* text.peek(k).category == CC.k *)
@@ -87,6 +121,12 @@ Inductive expr :=
 | ERangeEqPoint                      (* text.peek((0, len(point))) == point *)
 | EPrevIsNone                        (* prev is None *)
 | EPrevCatNe (k : cc)                (* prev.category != CC.k *)
+| EPrevCatNeTC (k : tc)              (* prev.category != TC.k *)
+| EPosTruthy                         (* text.position             as a truth value *)
+| EPeekIsNone (c : chr)              (* text.peek(k) is None *)
+| EResEndsWith (x : N)               (* result.endswith('x') *)
+| ETmpEqChar (x : N)                 (* eol == 'x'                eol the second token local *)
+| EIntEq (e : iexpr) (n : nat)       (* <int> == n *)
 | EKeyInMap                          (* key in mapping *)
 | EResTruthy                         (* result                    as a truth value *)
 | EAnd (a b : expr)
@@ -107,6 +147,16 @@ Inductive stmt :=
 | SSetMap (d : dict)         (* mapping = { ... } *)
 | SSetKey (a b : chr)        (* key = (text.peek(a).category, text.peek(b).category) *)
 | SRollback                  (* text.backward(text.position - result.position) *)
+| SSetStart                  (* start = text.position *)
+| SNewTokenStart (k : option tc)  (* result = Token('', start[, category=TC.k]) *)
+| SRollbackStart             (* text.backward(text.position - start) *)
+| STmpForward (n : nat)      (* eol = text.forward(n) *)
+| SAppendTmp                 (* result += eol *)
+| SSetInt (e : iexpr)        (* n = <int> *)
+| SForwardI (e : iexpr)      (* result = text.forward(<int>) *)
+| SAppendForwardI (e : iexpr)  (* result += text.forward(<int>) *)
+| SBackwardI (e : iexpr)     (* text.backward(<int>) *)
+| SForwardUntil (p : pred)   (* result = text.forward_until(p) *)
 | SReturnRes                 (* return result *)
 | SReturnNone                (* return *)
 | SIf (c : expr) (a b : block)   (* if c: a else: b     (no else: b empty) *)
@@ -149,13 +199,16 @@ Inductive catv := KNone | KCC (k : cc) | KTC (k : tc).
 
 Record tokv := mkv { v_text : str; v_pos : Z; v_cat : catv }.
 
-(* s_res, s_map, s_key, s_point: the locals `result` (called `c` in one rule),
-   `mapping`, `key`, `point`; None = not bound yet *)
+(* s_res, s_map, s_key, s_point, s_start, s_tmp: the locals `result` (called `c`
+   in one rule), `mapping`, `key`, `point`, an int local holding a recorded
+   text.position, a second token local; None = not bound yet *)
 Record state := mks { s_rest : list cchar; s_back : list cchar;
                       s_res : option tokv; s_map : option dict;
-                      s_key : option dkey; s_point : option str }.
+                      s_key : option dkey; s_point : option str;
+                      s_start : option Z; s_tmp : option tokv; s_int : option nat }.
 
-Definition init_state (rest : list cchar) : state := mks rest [] None None None None.
+Definition init_state (rest : list cchar) : state :=
+  mks rest [] None None None None None None None.
 
 Definition position (cx : dctx) (st : state) : Z :=
   (d_idx cx + Z.of_nat (length (s_back st)))%Z.
@@ -203,6 +256,29 @@ Definition cat_test (o : option cchar) (f : cc -> bool) : eres :=
 Definition nonempty {A} (l : list A) : bool :=
   match l with [] => false | _ :: _ => true end.
 
+Definition pred_holds (p : pred) (c : cchar) : bool :=
+  match p with
+  | PCatEq k => cc_beq (ccat c) k
+  | PCatNe k => negb (cc_beq (ccat c) k)
+  | PCatIn ks => mem_cc (ccat c) ks
+  | PCatNotIn ks => negb (mem_cc (ccat c) ks)
+  end.
+
+(* the characters before the first one satisfying p *)
+Fixpoint until_pred (p : pred) (l : list cchar) : nat :=
+  match l with
+  | [] => O
+  | c :: l' => if pred_holds p c then O else S (until_pred p l')
+  end.
+
+Definition ieval (e : iexpr) (st : state) : option nat :=
+  match e with
+  | INum n => Some n
+  | IVar => s_int st
+  | INumUntil p => Some (until_pred p (s_rest st))
+  | ILenRes => match s_res st with Some v => Some (length (v_text v)) | None => None end
+  end.
+
 Fixpoint eval (cx : dctx) (e : expr) (st : state) : eres :=
   match e with
   | ETruthy c => VB (match peekc cx st c with Some _ => true | None => false end)
@@ -238,6 +314,28 @@ Fixpoint eval (cx : dctx) (e : expr) (st : state) : eres :=
     match d_prev cx with
     | None => VAttr
     | Some t => VB (negb (N.eqb (Tables.tc_value (tcat t)) (Tables.cc_value k)))
+    end
+  | EPrevCatNeTC k =>
+    match d_prev cx with
+    | None => VAttr
+    | Some t => VB (negb (N.eqb (Tables.tc_value (tcat t)) (Tables.tc_value k)))
+    end
+  | EPosTruthy => VB (negb (Z.eqb (position cx st) 0))
+  | EPeekIsNone c => VB (match peekc cx st c with Some _ => false | None => true end)
+  | EResEndsWith x =>
+    match s_res st with
+    | Some v => VB (match rev (v_text v) with y :: _ => N.eqb y x | [] => false end)
+    | None => VUnsup
+    end
+  | ETmpEqChar x =>
+    match s_tmp st with
+    | Some v => VB (str_eqb (v_text v) [x])
+    | None => VUnsup
+    end
+  | EIntEq e n =>
+    match ieval e st with
+    | Some m => VB (Nat.eqb m n)
+    | None => VUnsup
     end
   | EKeyInMap =>
     match s_key st, s_map st with
@@ -297,15 +395,31 @@ Definition forward (n : nat) (st : state) : option (tokv * state) :=
   match split_n n (s_rest st) with
   | Some (c :: a, b) =>
     Some (mkv (chars_of (c :: a)) (cpos c) (KCC (ccat c)),
-          mks b (rev (c :: a) ++ s_back st) (s_res st) (s_map st) (s_key st) (s_point st))
+          mks b (rev (c :: a) ++ s_back st) (s_res st) (s_map st) (s_key st) (s_point st)
+              (s_start st) (s_tmp st) (s_int st))
   | _ => None      (* n = 0, or fewer than n characters left *)
   end.
 
 Definition set_res (v : tokv) (st : state) : state :=
-  mks (s_rest st) (s_back st) (Some v) (s_map st) (s_key st) (s_point st).
+  mks (s_rest st) (s_back st) (Some v) (s_map st) (s_key st) (s_point st) (s_start st) (s_tmp st) (s_int st).
 
 Definition set_point (p : str) (st : state) : state :=
-  mks (s_rest st) (s_back st) (s_res st) (s_map st) (s_key st) (Some p).
+  mks (s_rest st) (s_back st) (s_res st) (s_map st) (s_key st) (Some p) (s_start st) (s_tmp st) (s_int st).
+
+Definition set_start (z : Z) (st : state) : state :=
+  mks (s_rest st) (s_back st) (s_res st) (s_map st) (s_key st) (s_point st) (Some z) (s_tmp st) (s_int st).
+
+Definition set_tmp (v : tokv) (st : state) : state :=
+  mks (s_rest st) (s_back st) (s_res st) (s_map st) (s_key st) (s_point st) (s_start st) (Some v) (s_int st).
+
+(* text.backward(text.position - target): back to the index `target`, which
+   must lie within what this call has consumed *)
+Definition rollback_to (cx : dctx) (target : Z) (st : state) : option state :=
+  let n := (position cx st - target)%Z in
+  if (n <? 0)%Z || (Z.of_nat (length (s_back st)) <? n)%Z then None
+  else let k := Z.to_nat n in
+       Some (mks (rev (firstn k (s_back st)) ++ s_rest st) (skipn k (s_back st))
+                 (s_res st) (s_map st) (s_key st) (s_point st) (s_start st) (s_tmp st) (s_int st)).
 
 (* a += b *)
 Definition tok_add (a b : tokv) : tokv := mkv (v_text a ++ v_text b) (v_pos a) (v_cat a).
@@ -379,7 +493,7 @@ Fixpoint exec_stmt (cx : dctx) (s : stmt) (st : state) {struct s} : xres :=
       match s_rest st with
       | c :: r =>
         XNormal (mks r (c :: s_back st) (Some (tok_add v (mkv [ch c] (cpos c) (KCC (ccat c)))))
-                     (s_map st) (s_key st) (s_point st))
+                     (s_map st) (s_key st) (s_point st) (s_start st) (s_tmp st) (s_int st))
       | [] => XUnsup     (* StopIteration *)
       end)
   | SSkipForward n =>
@@ -410,7 +524,8 @@ Fixpoint exec_stmt (cx : dctx) (s : stmt) (st : state) {struct s} : xres :=
       | _, _ => XUnsup
       end)
   | SSetMap d =>
-    XNormal (mks (s_rest st) (s_back st) (s_res st) (Some d) (s_key st) (s_point st))
+    XNormal (mks (s_rest st) (s_back st) (s_res st) (Some d) (s_key st) (s_point st)
+                 (s_start st) (s_tmp st) (s_int st))
   | SSetKey a b =>
     match peekc cx st a with
     | None => XAttr
@@ -419,16 +534,86 @@ Fixpoint exec_stmt (cx : dctx) (s : stmt) (st : state) {struct s} : xres :=
       | None => XAttr
       | Some y =>
         XNormal (mks (s_rest st) (s_back st) (s_res st) (s_map st)
-                     (Some (K2 (ccat x) (ccat y))) (s_point st))
+                     (Some (K2 (ccat x) (ccat y))) (s_point st) (s_start st) (s_tmp st) (s_int st))
       end
     end
   | SRollback =>
     with_res st (fun v =>
-      let n := (position cx st - v_pos v)%Z in
-      if (n <? 0)%Z || (Z.of_nat (length (s_back st)) <? n)%Z then XUnsup
-      else let k := Z.to_nat n in
-           XNormal (mks (rev (firstn k (s_back st)) ++ s_rest st) (skipn k (s_back st))
-                        (s_res st) (s_map st) (s_key st) (s_point st)))
+      match rollback_to cx (v_pos v) st with
+      | Some st' => XNormal st'
+      | None => XUnsup
+      end)
+  | SSetStart => XNormal (set_start (position cx st) st)
+  | SNewTokenStart k =>
+    match s_start st with
+    | Some z => XNormal (set_res (mkv [] z (match k with Some t => KTC t | None => KNone end)) st)
+    | None => XUnsup
+    end
+  | SRollbackStart =>
+    match s_start st with
+    | Some z =>
+      match rollback_to cx z st with
+      | Some st' => XNormal st'
+      | None => XUnsup
+      end
+    | None => XUnsup
+    end
+  | STmpForward n =>
+    match forward n st with
+    | Some (t, st') => XNormal (set_tmp t st')
+    | None => XUnsup
+    end
+  | SAppendTmp =>
+    with_res st (fun v =>
+      match s_tmp st with
+      | Some t => XNormal (set_res (tok_add v t) st)
+      | None => XUnsup
+      end)
+  | SSetInt e =>
+    match ieval e st with
+    | Some n => XNormal (mks (s_rest st) (s_back st) (s_res st) (s_map st) (s_key st) (s_point st)
+                             (s_start st) (s_tmp st) (Some n))
+    | None => XUnsup
+    end
+  | SForwardI e =>
+    match ieval e st with
+    | Some n =>
+      match forward n st with
+      | Some (t, st') => XNormal (set_res t st')
+      | None => XUnsup
+      end
+    | None => XUnsup
+    end
+  | SAppendForwardI e =>
+    with_res st (fun v =>
+      match ieval e st with
+      | Some n =>
+        match forward n st with
+        | Some (t, st') => XNormal (set_res (tok_add v t) st')
+        | None => XUnsup
+        end
+      | None => XUnsup
+      end)
+  | SBackwardI e =>
+    match ieval e st with
+    | Some n =>
+      match rollback_to cx (position cx st - Z.of_nat n)%Z st with
+      | Some st' => XNormal st'
+      | None => XUnsup
+      end
+    | None => XUnsup
+    end
+  | SForwardUntil p =>
+    let n := until_pred p (s_rest st) in
+    let pos := match s_rest st with c :: _ => cpos c | [] => position cx st end in
+    match n with
+    | O => XNormal (set_res (mkv [] pos KNone) st)
+    | S _ =>
+      match forward n st with
+      | Some (t, st') => XNormal (set_res (mkv (v_text t) pos KNone) st')
+      | None => XUnsup
+      end
+    end
   | SReturnRes => with_res st (fun v => XReturn (Some v) st)
   | SReturnNone => XReturn None st
   | SIf c a b =>
